@@ -79,6 +79,27 @@ theorem labelsFor_eq {gs : List Group} {g : Bytes} {ol : List Bytes} (h : strsOf
     channelNames frames (match frames with | [] => ol | _ :: _ => []) na = channelNames frames ol na := by
   cases frames <;> rfl
 
+/-! ### `modIfPresent`: an optional parameter rewritten in place -/
+
+theorem groupIdx_modIfPresent (gs : List Group) (G P : Bytes) (gi : Nat) (f : Param → Param) (g : Bytes) :
+    groupIdx (modIfPresent gs G P gi f) g = groupIdx gs g := by
+  unfold modIfPresent; split
+  · exact groupIdx_modParam _ _ _ _ _
+  · rfl
+
+theorem getParam_modIfPresent_ne (gs : List Group) (G P : Bytes) (gi : Nat) (f : Param → Param) (hn : ∀ q, (f q).name = q.name)
+    (hgi : groupIdx gs G = .ok gi) (g p : Bytes) (hne : ¬ (g = G ∧ p = P)) :
+    getParam (modIfPresent gs G P gi f) g p = getParam gs g p := by
+  unfold modIfPresent
+  cases h : gpIdx gs G P with
+  | ok a =>
+    obtain ⟨a1, i⟩ := a
+    have e := gpIdx_fst h hgi
+    rw [e] at h
+    exact getParam_modParam_ne gs G P gi i f hn h g p hne
+  | throw e => rfl
+  | ub k => rfl
+
 /-- what the POINT updater establishes: POINT:FRAMES counts the stored frames, POINT:USED counts the point names (those of
     the first frame when there are data, else the declared labels followed by the new declarations), POINT:LABELS lists them
     whenever the count had to change; nothing outside the group POINT is touched -/
@@ -127,26 +148,21 @@ theorem updatePointParams_post (gs : List Group) (frames : List Frame) (np : Lis
     have hU2 : int0 g2 POINT USED = .ok (u64ToI32 (pointNames frames ol np).length) := by
       rw [← hg2]; exact int0_modParam_set g1 POINT USED gP iUsed _ hiU
     refine Outcome.ok_andThen fun ⟨gL, iL⟩ hiL => ?_
-    refine Outcome.ok_andThen fun ⟨gD, iD⟩ hiD => ?_
-    refine Outcome.ok_andThen fun ⟨gN, iN⟩ hiN => ?_
     have eL := gpIdx_fst hiL (by rw [hG2]; exact hgP)
-    have eD := gpIdx_fst hiD (by rw [hG2]; exact hgP)
-    have eN := gpIdx_fst hiN (by rw [hG2]; exact hgP)
-    rw [eL] at hiL; rw [eD] at hiD; rw [eN] at hiN
+    rw [eL] at hiL
     simp only
     generalize hg3 : modParam g2 gP iL (·.setStrs! (pointNames frames ol np)) = g3
-    have hiD3 : gpIdx g3 POINT DESCRIPTIONS = .ok (gP, iD) := by rw [← hg3, gpIdx_modParam _ _ _ _ (setStrs!_name _)]; exact hiD
-    generalize hg4 : modParam g3 gP iD (·.setStrs! ((pointNames frames ol np).map fun _ => [])) = g4
-    have hiN4 : gpIdx g4 POINT UNITS = .ok (gP, iN) := by
-      rw [← hg4, gpIdx_modParam _ _ _ _ (setStrs!_name _), ← hg3, gpIdx_modParam _ _ _ _ (setStrs!_name _)]; exact hiN
+    have hG3 : groupIdx g3 POINT = .ok gP := by rw [← hg3, groupIdx_modParam, hG2]; exact hgP
+    generalize hg4 : modIfPresent g3 POINT DESCRIPTIONS gP (·.setStrs! ((pointNames frames ol np).map fun _ => [])) = g4
+    have hG4 : groupIdx g4 POINT = .ok gP := by rw [← hg4, groupIdx_modIfPresent]; exact hG3
     apply Outcome.ok_ok
     have hO3 : ∀ g p, ¬ (g = POINT ∧ p = LABELS) → getParam g3 g p = getParam g2 g p := by
       intro g p hne; rw [← hg3]; exact getParam_modParam_ne g2 POINT LABELS gP iL _ (setStrs!_name _) hiL g p hne
     have hO4 : ∀ g p, ¬ (g = POINT ∧ p = DESCRIPTIONS) → getParam g4 g p = getParam g3 g p := by
-      intro g p hne; rw [← hg4]; exact getParam_modParam_ne g3 POINT DESCRIPTIONS gP iD _ (setStrs!_name _) hiD3 g p hne
+      intro g p hne; rw [← hg4]; exact getParam_modIfPresent_ne g3 POINT DESCRIPTIONS gP _ (setStrs!_name _) hG3 g p hne
     have hO5 : ∀ g p, ¬ (g = POINT ∧ p = UNITS) →
-        getParam (modParam g4 gP iN (·.setStrs! ((pointNames frames ol np).map fun _ => mm))) g p = getParam g4 g p := by
-      intro g p hne; exact getParam_modParam_ne g4 POINT UNITS gP iN _ (setStrs!_name _) hiN4 g p hne
+        getParam (modIfPresent g4 POINT UNITS gP (·.setStrs! ((pointNames frames ol np).map fun _ => mm))) g p = getParam g4 g p := by
+      intro g p hne; exact getParam_modIfPresent_ne g4 POINT UNITS gP _ (setStrs!_name _) hG4 g p hne
     refine ⟨?_, ?_, ?_, ?_, ?_⟩
     · obtain ⟨fr1, h1, h2⟩ := hF1
       refine ⟨fr1, ?_, h2⟩
@@ -163,7 +179,7 @@ theorem updatePointParams_post (gs : List Group) (frames : List Frame) (np : Lis
       have hne : ∀ x, ¬ (g = POINT ∧ p = x) := by intro x ⟨h1, _⟩; subst h1; exact hg rfl
       rw [hO5 g p (hne _), hO4 g p (hne _), hO3 g p (hne _), hO2 g p (hne _), hO1 g p (hne _)]
     · intro g
-      rw [groupIdx_modParam, ← hg4, groupIdx_modParam, ← hg3, groupIdx_modParam]; exact hG2 g
+      rw [groupIdx_modIfPresent, ← hg4, groupIdx_modIfPresent, ← hg3, groupIdx_modParam]; exact hG2 g
   · apply Outcome.ok_ok
     refine ⟨hF1, ⟨used, hused, ?_⟩, ⟨ol, hL1, Or.inr rfl⟩, ?_, hG1⟩
     · simp at hc; exact hc.symm
@@ -197,22 +213,19 @@ theorem updateAnalogParams_post (gs : List Group) (frames : List Frame) (na : Li
     have hU1 : int0 a1 ANALOG USED = .ok (u64ToI32 (channelNames frames oa na).length) := by
       rw [← hg1]; exact int0_modParam_set gs ANALOG USED gA iUsed _ hiU
     refine Outcome.ok_andThen fun ⟨gL, iL⟩ hiL => ?_
-    refine Outcome.ok_andThen fun ⟨gD, iD⟩ hiD => ?_
     have eL := gpIdx_fst hiL (by rw [hG1]; exact hgA)
-    have eD := gpIdx_fst hiD (by rw [hG1]; exact hgA)
-    rw [eL] at hiL; rw [eD] at hiD
+    rw [eL] at hiL
     simp only
     generalize hg2 : modParam a1 gA iL (·.setStrs! (channelNames frames oa na)) = a2
-    have hiD2 : gpIdx a2 ANALOG DESCRIPTIONS = .ok (gA, iD) := by rw [← hg2, gpIdx_modParam _ _ _ _ (setStrs!_name _)]; exact hiD
     have hG2 : ∀ g, groupIdx a2 g = groupIdx gs g := by intro g; rw [← hg2, groupIdx_modParam]; exact hG1 g
     have hO2 : ∀ g p, ¬ (g = ANALOG ∧ p = LABELS) → getParam a2 g p = getParam a1 g p := by
       intro g p hne; rw [← hg2]; exact getParam_modParam_ne a1 ANALOG LABELS gA iL _ (setStrs!_name _) hiL g p hne
     have hL2 : strsOf a2 ANALOG LABELS = .ok (channelNames frames oa na) := by
       rw [← hg2]; exact strsOf_modParam_set a1 ANALOG LABELS gA iL _ hiL
-    generalize hg3 : modParam a2 gA iD (·.setStrs! ((channelNames frames oa na).map fun _ => [])) = a3
-    have hG3 : ∀ g, groupIdx a3 g = groupIdx gs g := by intro g; rw [← hg3, groupIdx_modParam]; exact hG2 g
+    generalize hg3 : modIfPresent a2 ANALOG DESCRIPTIONS gA (·.setStrs! ((channelNames frames oa na).map fun _ => [])) = a3
+    have hG3 : ∀ g, groupIdx a3 g = groupIdx gs g := by intro g; rw [← hg3, groupIdx_modIfPresent]; exact hG2 g
     have hO3 : ∀ g p, ¬ (g = ANALOG ∧ p = DESCRIPTIONS) → getParam a3 g p = getParam a2 g p := by
-      intro g p hne; rw [← hg3]; exact getParam_modParam_ne a2 ANALOG DESCRIPTIONS gA iD _ (setStrs!_name _) hiD2 g p hne
+      intro g p hne; rw [← hg3]; exact getParam_modIfPresent_ne a2 ANALOG DESCRIPTIONS gA _ (setStrs!_name _) (by rw [hG2]; exact hgA) g p hne
     refine Outcome.ok_andThen fun ⟨gS, iS⟩ hiS => ?_
     have eS := gpIdx_fst hiS (by rw [hG3]; exact hgA)
     rw [eS] at hiS
@@ -231,29 +244,39 @@ theorem updateAnalogParams_post (gs : List Group) (frames : List Frame) (na : Li
     have hG5 : ∀ g, groupIdx a5 g = groupIdx gs g := by intro g; rw [← hg5, groupIdx_modParam]; exact hG4 g
     have hO5 : ∀ g p, ¬ (g = ANALOG ∧ p = OFFSET) → getParam a5 g p = getParam a4 g p := by
       intro g p hne; rw [← hg5]; exact getParam_modParam_ne a4 ANALOG OFFSET gA iO _ (setInts!_name _) hiO g p hne
-    refine Outcome.ok_andThen fun ⟨gN, iN⟩ hiN => ?_
-    have eN := gpIdx_fst hiN (by rw [hG5]; exact hgA)
-    rw [eN] at hiN
-    refine Outcome.ok_andThen fun units _ => ?_
-    apply Outcome.ok_ok
-    simp only
-    have hO6 : ∀ g p, ¬ (g = ANALOG ∧ p = UNITS) →
-        getParam (modParam a5 gA iN (·.setStrs! (units ++ List.replicate ((channelNames frames oa na).length - units.length) V))) g p = getParam a5 g p := by
-      intro g p hne; exact getParam_modParam_ne a5 ANALOG UNITS gA iN _ (setStrs!_name _) hiN g p hne
-    refine ⟨⟨_, ?_, intToU64_u64ToI32 _ hcn⟩, ⟨_, ?_, Or.inl rfl⟩, ?_, ?_, ?_⟩
-    · rw [int0_congr (hO6 ANALOG USED (by decide)), int0_congr (hO5 ANALOG USED (by decide)), int0_congr (hO4 ANALOG USED (by decide)),
-        int0_congr (hO3 ANALOG USED (by decide)), int0_congr (hO2 ANALOG USED (by decide))]
-      exact hU1
-    · rw [strsOf_congr (hO6 ANALOG LABELS (by decide)), strsOf_congr (hO5 ANALOG LABELS (by decide)), strsOf_congr (hO4 ANALOG LABELS (by decide)),
-        strsOf_congr (hO3 ANALOG LABELS (by decide))]
-      exact hL2
-    · intro g p hg
-      have hne : ∀ x, ¬ (g = ANALOG ∧ p = x) := by intro x ⟨h1, _⟩; subst h1; exact hg rfl
-      rw [hO6 g p (hne _), hO5 g p (hne _), hO4 g p (hne _), hO3 g p (hne _), hO2 g p (hne _), hO1 g p (hne _)]
-    · intro p h1 h2 h3 h4 h5 h6
-      rw [hO6 ANALOG p (fun h => h6 h.2), hO5 ANALOG p (fun h => h5 h.2), hO4 ANALOG p (fun h => h4 h.2), hO3 ANALOG p (fun h => h3 h.2),
-        hO2 ANALOG p (fun h => h2 h.2), hO1 ANALOG p (fun h => h1 h.2)]
-    · intro g; rw [groupIdx_modParam]; exact hG5 g
+    -- whatever the UNITS step does (rewrite the parameter, or nothing when the group has none), it touches ANALOG:UNITS only
+    have tail : ∀ a6 : List Group, (∀ g p, ¬ (g = ANALOG ∧ p = UNITS) → getParam a6 g p = getParam a5 g p) → (∀ g, groupIdx a6 g = groupIdx a5 g) →
+        (∃ u, int0 a6 ANALOG USED = .ok u ∧ intToU64 u = (channelNames frames oa na).length) ∧
+        (∃ l, strsOf a6 ANALOG LABELS = .ok l ∧ (l = channelNames frames oa na ∨ l = oa)) ∧
+        (∀ g p, groupIdx gs g ≠ groupIdx gs ANALOG → getParam a6 g p = getParam gs g p) ∧
+        (∀ p, p ≠ USED → p ≠ LABELS → p ≠ DESCRIPTIONS → p ≠ SCALE → p ≠ OFFSET → p ≠ UNITS → getParam a6 ANALOG p = getParam gs ANALOG p) ∧
+        (∀ g, groupIdx a6 g = groupIdx gs g) := by
+      intro a6 hO6 hG6
+      refine ⟨⟨_, ?_, intToU64_u64ToI32 _ hcn⟩, ⟨_, ?_, Or.inl rfl⟩, ?_, ?_, ?_⟩
+      · rw [int0_congr (hO6 ANALOG USED (by decide)), int0_congr (hO5 ANALOG USED (by decide)), int0_congr (hO4 ANALOG USED (by decide)),
+          int0_congr (hO3 ANALOG USED (by decide)), int0_congr (hO2 ANALOG USED (by decide))]
+        exact hU1
+      · rw [strsOf_congr (hO6 ANALOG LABELS (by decide)), strsOf_congr (hO5 ANALOG LABELS (by decide)), strsOf_congr (hO4 ANALOG LABELS (by decide)),
+          strsOf_congr (hO3 ANALOG LABELS (by decide))]
+        exact hL2
+      · intro g p hg
+        have hne : ∀ x, ¬ (g = ANALOG ∧ p = x) := by intro x ⟨h1, _⟩; subst h1; exact hg rfl
+        rw [hO6 g p (hne _), hO5 g p (hne _), hO4 g p (hne _), hO3 g p (hne _), hO2 g p (hne _), hO1 g p (hne _)]
+      · intro p h1 h2 h3 h4 h5 h6
+        rw [hO6 ANALOG p (fun h => h6 h.2), hO5 ANALOG p (fun h => h5 h.2), hO4 ANALOG p (fun h => h4 h.2), hO3 ANALOG p (fun h => h3 h.2),
+          hO2 ANALOG p (fun h => h2 h.2), hO1 ANALOG p (fun h => h1 h.2)]
+      · intro g; rw [hG6]; exact hG5 g
+    cases hiN : gpIdx a5 ANALOG UNITS with
+    | ok a =>
+      obtain ⟨gN, iN⟩ := a
+      have eN := gpIdx_fst hiN (by rw [hG5]; exact hgA)
+      rw [eN] at hiN
+      simp only
+      refine Outcome.ok_andThen fun units _ => ?_
+      apply Outcome.ok_ok
+      exact tail _ (fun g p hne => getParam_modParam_ne a5 ANALOG UNITS gA iN _ (setStrs!_name _) hiN g p hne) (fun g => groupIdx_modParam _ _ _ _ _)
+    | throw e => simp only; apply Outcome.ok_ok; exact tail a5 (fun _ _ _ => rfl) (fun _ => rfl)
+    | ub k => simp only; apply Outcome.ok_ok; exact tail a5 (fun _ _ _ => rfl) (fun _ => rfl)
   · apply Outcome.ok_ok
     refine ⟨⟨aused, haused, ?_⟩, ⟨oa, hoa, Or.inr rfl⟩, fun _ _ _ => rfl, fun _ _ _ _ _ _ _ => rfl, fun _ => rfl⟩
     simp at hc; exact hc.symm
